@@ -1,6 +1,339 @@
-EXPLANATION="stub"
-ASSUMPTIONS=[]
+"""C04 - conversion never loses the original and is idempotent over run histories (structural clauses)."""
+import ast
+
+from sa.cfg import CFG, conjuncts
+from sa.common import chain_root, expand_name, resolved_calls, returns_of
+from sa.defuse import DefUse, loc_name
+from sa.model import AnalysisError, AnchorMissing, const_value, src, walk_function
+from sa.struct import call_name, find, kwarg, norm, receiver, string_value
+
+EXPLANATION = (
+    "Decides structural necessary conditions of C04 in NP2Converter: (D1) every unlink of the original recording "
+    "(self.ap_file) is either under `self.check_completed and self.delete_original` or dominated by the lossless "
+    "in-place compression of that very file (self.sr.compress_file() then self.sr.close()); (D2) check_completed is "
+    "only ever set False in init_params and True in check_NP24, the latter reachable only after the verification loop "
+    "whose body asserts array equality of the full original window against the reassembled shanks with zero overlap; "
+    "(D3) every unlink of a file whose existence is not established on all paths (opened / produced / stat'ed before) "
+    "tolerates absence (missing_ok=True or an exists() guard); (D4) the skip guards (already_processed, already_exists, "
+    "non-NP2) dominate every effectful step, return the documented status, and output files are only created under "
+    "`not exists or overwrite`; (D5) the split-marker metadata key is the same f-string for writer and readers and equals "
+    "the literal read by spikeglx at NP2.4. Interruption at every step and equality of disk states across run histories "
+    "are NOT decided (they need execution)."
+)
+ASSUMPTIONS = [
+    "Reader.compress_file is lossless and atomically published (C02; mtscomp trusted)",
+    "python assert statements are enabled (no -O) - the verification uses `assert`",
+    "Path.unlink(missing_ok=True) ignores an absent file",
+]
+
+CLS = "neuropixel.NP2Converter"
+
+
+def _guards(cfg, cn):
+    out = []
+    for t, pol in cfg.guards(cn):
+        out += conjuncts(t, pol)
+    return out
+
+
+def _unlinks(fi):
+    return [c for c in find(fi.node, ast.Call, nested=False) if call_name(c) == "unlink" and receiver(c) is not None]
+
+
+def _methods(repo, clsq):
+    return [fi for q, fi in sorted(repo.functions.items()) if q.startswith(clsq + ".") and q.count(".") == clsq.count(".") + 1]
+
+
+def d1_deletion_guarded(ctx):
+    ctx.rule("D1", "the original (self.ap_file) is unlinked only under check_completed and delete_original, or after its lossless in-place compression")
+    repo = ctx.repo
+    n = 0
+    for fi in _methods(repo, CLS):
+        du = None
+        for c in _unlinks(fi):
+            root = chain_root(receiver(c))[0]
+            r = receiver(c)
+            if root != "self.ap_file":
+                # a local alias of the original?
+                if isinstance(r, ast.Name):
+                    du = du or DefUse(fi.node)
+                    v = expand_name(du, r, c)
+                    if chain_root(v)[0] != "self.ap_file" or (isinstance(v, ast.Call) and call_name(v) == "with_suffix"):
+                        continue
+                else:
+                    continue
+            elif isinstance(r, ast.Call) and call_name(r) == "with_suffix":
+                continue  # a sibling file derived from the original's name, not the original
+            n += 1
+            du = du or DefUse(fi.node)
+            cfg = du.cfg
+            cn = cfg.node_for(c)
+            gs = _guards(cfg, cn)
+            has_check = any(loc_name(t) == "self.check_completed" and pol for t, pol in gs)
+            has_opt = any(loc_name(t) == "self.delete_original" and pol for t, pol in gs)
+            # alternative: dominated by self.sr.compress_file() (lossless, published) and self.sr.close()
+            comp = [x for x in resolved_calls(repo, fi, "spikeglx.Reader.compress_file") if chain_root(receiver(x))[0] == "self.sr"]
+            clos = [x for x in find(fi.node, ast.Call, nested=False) if call_name(x) == "close" and receiver(x) is not None
+                    and loc_name(receiver(x)) == "self.sr"]
+            by_compress = bool(comp) and cfg.must_pass([cfg.node_for(x) for x in comp], cn) and \
+                bool(clos) and cfg.must_pass([cfg.node_for(x) for x in clos], cn)
+            if by_compress:
+                # the compressed file must be kept: keep_original not False would be fine, and the result adopted
+                kept = all(not (isinstance(kwarg(x, "keep_original"), ast.Constant) and kwarg(x, "keep_original").value is False) for x in comp)
+                ctx.check(kept, fi, c, c, "original removed only after it was losslessly compressed in place and the reader closed",
+                          "compress_file(keep_original=False) already removed the source: the following unlink targets a missing file", key="after-compress")
+            else:
+                ctx.check(has_check and has_opt, fi, c, c, "original removed only when verification completed and deletion was requested",
+                          f"the original can be deleted on a path where {'verification has not completed' if not has_check else 'deletion was not requested'}"
+                          f" (guards: {[('' if p else 'not ') + src(t) for t, p in gs]})", key="delete-guard")
+    if n == 0:
+        ctx.note("no unlink of self.ap_file found in NP2Converter: nothing can delete the original (D1 vacuous by safety)")
+
+
+def d2_typestate(ctx):
+    ctx.rule("D2", "check_completed: False only in init, True only in check_NP24 after the asserting verification loop over full windows")
+    repo = ctx.repo
+    true_sites, false_sites = [], []
+    for fi in _methods(repo, CLS):
+        for n in walk_function(fi.node):
+            if isinstance(n, (ast.Assign, ast.AugAssign)):
+                tgts = n.targets if isinstance(n, ast.Assign) else [n.target]
+                for t in tgts:
+                    for el in (t.elts if isinstance(t, ast.Tuple) else [t]):
+                        if loc_name(el) == "self.check_completed":
+                            v = n.value
+                            if isinstance(v, ast.Constant) and v.value is False:
+                                false_sites.append((fi, n))
+                            else:
+                                true_sites.append((fi, n))
+            if isinstance(n, ast.Call) and call_name(n) == "setattr" and len(n.args) >= 2 and isinstance(n.args[1], ast.Constant) \
+                    and n.args[1].value == "check_completed":
+                true_sites.append((fi, n))
+    if not false_sites:
+        ctx.violation(repo.fn(CLS + ".init_params"), None, "self.check_completed = False", "check_completed is never initialised to False", key="no-init")
+    for fi, n in false_sites:
+        ctx.ok(fi, n, n, "initialised False", key="false:" + fi.qualname)
+    for fi, n in true_sites:
+        if fi.qualname != CLS + ".check_NP24":
+            ctx.violation(fi, n, n, "check_completed is set (to a non-False value) outside check_NP24: deletion could run without verification",
+                          key="true-outside:" + fi.qualname)
+            continue
+        v = n.value if isinstance(n, (ast.Assign,)) else None
+        cfg = CFG(fi.node)
+        cn = cfg.node_for(n)
+        loops = [x for x in walk_function(fi.node) if isinstance(x, ast.For) and "firstlast" in src(x.iter)]
+        if not loops:
+            ctx.violation(fi, n, n, "check_NP24 sets check_completed without iterating over the recording's windows", key="no-loop")
+            continue
+        lp = loops[0]
+        ln = cfg.node_for(lp)
+        inside = any(x is n for b in lp.body for x in ast.walk(b))
+        ctx.check(cfg.must_pass([ln], cn) and not inside and isinstance(v, ast.Constant) and v.value is True, fi, n, n,
+                  "set True only after the verification loop has run to completion",
+                  "check_completed is set before / inside the verification loop (or not to the constant True)", key="true-after-loop")
+        # loop body asserts equality of the full original window
+        asserts = [x for b in lp.body for x in ast.walk(b) if isinstance(x, ast.Assert)]
+        raises = [x for b in lp.body for x in ast.walk(b) if isinstance(x, ast.If) and any(isinstance(y, ast.Raise) for y in x.body)]
+        du = DefUse(fi.node)
+        good = False
+        detail = "no assert / raise on mismatch inside the loop"
+        for a in asserts + raises:
+            t = a.test
+            eq = [c for c in find(t, ast.Call) if call_name(c) in ("array_equal", "array_equiv")]
+            if not eq or len(eq[0].args) < 2:
+                detail = f"`{src(t)[:80]}` is not an array equality"
+                continue
+            if isinstance(a, ast.If) and not (isinstance(t, ast.UnaryOp) and isinstance(t.op, ast.Not)):
+                detail = "mismatch branch not negated"
+                continue
+            args = eq[0].args[:2]
+            exp = [expand_name(du, x, a) for x in args]
+            full = None
+            for x in exp:
+                if isinstance(x, ast.Subscript) and loc_name(x.value) == "self.sr":
+                    el = x.slice.elts if isinstance(x.slice, ast.Tuple) else [x.slice]
+                    rows = el[0]
+                    cols_ok = len(el) == 1 or (isinstance(el[1], ast.Slice) and el[1].lower is None and el[1].upper is None and el[1].step is None)
+                    tnames = [loc_name(e) for e in (lp.target.elts if isinstance(lp.target, ast.Tuple) else [lp.target])]
+                    rows_ok = isinstance(rows, ast.Slice) and rows.step is None and [loc_name(rows.lower), loc_name(rows.upper)] == tnames[:2]
+                    full = cols_ok and rows_ok
+            if full:
+                good = True
+            else:
+                detail = "the compared original is not self.sr[first:last, :] (all columns of the whole window)"
+        ctx.check(good, fi, lp, "assert np.array_equal(self.sr[first:last, :], reassembled)",
+                  "every window of the original (all columns) is asserted equal to the reassembled shanks",
+                  f"verification loop does not assert equality of the full original window: {detail}", key="loop-assert")
+        # the window generator of the verification covers nsamples with zero overlap
+        wgs = [c for c in find(fi.node, ast.Call, nested=False) if call_name(c) == "WindowGenerator"]
+        okw = False
+        for w in wgs:
+            a = list(w.args) + [k.value for k in w.keywords]
+            okw = len(a) >= 3 and loc_name(a[0]) == "self.nsamples" and isinstance(a[2], ast.Constant) and a[2].value == 0
+        ctx.check(okw, fi, wgs[0] if wgs else fi.node, wgs[0] if wgs else "WindowGenerator", "verification windows tile self.nsamples with overlap 0",
+                  "verification windows do not tile self.nsamples with zero overlap", key="verify-windows")
+    if not true_sites:
+        ctx.note("check_completed is never set True: the original can never be deleted by delete_NP24 (safe)")
+
+
+def _existence_witness(repo, fi, du, cfg, var_expr, call):
+    """Is the file denoted by `var_expr` (a Name) established to exist on every path to `call`?"""
+    if not isinstance(var_expr, ast.Name):
+        return False
+    name = var_expr.id
+    here = {d.idx for d in du.reaching(name, call)}
+    cn = cfg.node_for(call)
+    wit = []
+    for c in find(fi.node, ast.Call, nested=False):
+        if c is call:
+            continue
+        uses = False
+        q = repo.resolve_call(fi, c)
+        if (q in ("spikeglx.Reader",) or call_name(c) in ("open", "Reader")) and c.args and loc_name(c.args[0]) == name:
+            uses = True
+        if call_name(c) in ("stat", "exists", "rename", "compress_file") and receiver(c) is not None and loc_name(receiver(c)) == name:
+            uses = call_name(c) != "exists"
+        if uses and {d.idx for d in du.reaching(name, c)} == here:
+            wit.append(cfg.node_for(c))
+    if wit and cfg.must_pass(wit, cn):
+        return True
+    # exists() guard
+    for t, pol in _guards(cfg, cn):
+        if pol and isinstance(t, ast.Call) and call_name(t) == "exists" and receiver(t) is not None and norm(receiver(t)) == norm(var_expr):
+            return True
+    return False
+
+
+def d3_unlink_tolerant(ctx):
+    ctx.rule("D3", "an unlink whose target is not established to exist (stale output) tolerates absence")
+    repo = ctx.repo
+    n = 0
+    for clsq in (CLS, "neuropixel.NP2Reconstructor"):
+        for fi in _methods(repo, clsq):
+            du = cfg = None
+            for c in _unlinks(fi):
+                n += 1
+                du = du or DefUse(fi.node)
+                cfg = du.cfg
+                r = receiver(c)
+                mo = kwarg(c, "missing_ok") or (c.args[0] if c.args else None)
+                tolerant = isinstance(mo, ast.Constant) and mo.value is True
+                established = False
+                why = ""
+                root = chain_root(r)[0]
+                if loc_name(r) in ("self.ap_file", "self.save_file"):
+                    established, why = True, "file owned and opened by this object"
+                elif _existence_witness(repo, fi, du, cfg, r, c):
+                    established, why = True, "opened / stat'ed on every path before"
+                elif isinstance(r, ast.Name):
+                    v = expand_name(du, r, c)
+                    if isinstance(v, ast.Subscript) and chain_root(v)[0] == "self.shank_info":
+                        established = _existence_witness(repo, fi, du, cfg, r, c)
+                ctx.check(tolerant or established, fi, c, c,
+                          "unlink tolerates absence" if tolerant else f"target exists: {why}",
+                          f"`{src(c)}` removes a file that need not exist (stale output on a fresh folder) without missing_ok=True / exists() guard: "
+                          "a forced run raises FileNotFoundError after writing everything", key="unlink:" + norm(expand_name(du, r, c))[:80])
+    if n == 0:
+        ctx.note("no unlink in NP2Converter/NP2Reconstructor")
+
+
+EFFECTS_24 = ("_split2shanks", "_writemetadata_ap", "_writemetadata_lf", "check_NP24", "compress_NP24", "delete_NP24", "_closefiles")
+EFFECTS_21 = ("_split2shanks", "_writemetadata_lf", "compress_NP21", "_closefiles")
+
+
+def d4_skip_paths(ctx):
+    ctx.rule("D4", "skip guards dominate every effectful step and return 0 / -1; outputs are created only under `not exists or overwrite`")
+    repo = ctx.repo
+    for q, effects, need in ((CLS + "._process_NP24", EFFECTS_24, ("self.already_processed", "self.already_exists")),
+                             (CLS + "._process_NP21", EFFECTS_21, ("self.already_exists",))):
+        fi = repo.fn(q)
+        cfg = CFG(fi.node)
+        calls = [c for c in find(fi.node, ast.Call, nested=False) if call_name(c) in effects and receiver(c) is not None
+                 and loc_name(receiver(c)) == "self"]
+        if not calls:
+            raise AnchorMissing(f"{q}: no processing step found")
+        for flag in need:
+            # the guard must exist with `return 0`
+            ret0 = False
+            for r in returns_of(fi.node):
+                gs = _guards(cfg, cfg.node_for(r))
+                if any(loc_name(t) == flag and pol for t, pol in gs):
+                    ok, v = const_value(r.value) if r.value is not None else (False, None)
+                    ret0 = ok and v == 0
+            ctx.check(ret0, fi, fi.node, f"if {flag}: return 0", f"`{flag}` short-circuits with status 0",
+                      f"the `{flag}` skip path (return 0) is missing: a repeated run would redo / overwrite work", key=f"skip:{flag}")
+            bad = [c for c in calls if not any(loc_name(t) == flag and not pol for t, pol in _guards(cfg, cfg.node_for(c)))]
+            ctx.check(not bad, fi, bad[0] if bad else fi.node, f"{len(calls)} effect calls under not {flag}",
+                      f"every processing step runs only when not {flag}",
+                      f"`{src(bad[0]) if bad else ''}` can run although {flag} is set", key=f"dominate:{flag}")
+        # the flag is computed by the prepare step before it is tested
+        last = [r for r in returns_of(fi.node)]
+        fin = [r for r in last if not _guards(cfg, cfg.node_for(r)) or all(not pol for t, pol in _guards(cfg, cfg.node_for(r)) if loc_name(t) in need)]
+        ok1 = any(const_value(r.value) == (True, 1) for r in fin if r.value is not None)
+        ctx.check(ok1, fi, fi.node, "return 1", "a completed run reports status 1", "a completed run does not report status 1", key="status-1")
+    # process(): non NP2 -> -1
+    fp = repo.fn(CLS + ".process")
+    cfgp = CFG(fp.node)
+    st = [n for n in walk_function(fp.node) if isinstance(n, ast.Assign) and loc_name(n.targets[0]) == "status"] + \
+         [r for r in returns_of(fp.node) if r.value is not None and not isinstance(r.value, ast.Name)]
+    neg = False
+    for n in st:
+        v = n.value
+        if const_value(v) == (True, -1):
+            gs = _guards(cfgp, cfgp.node_for(n))
+            neg = all(not pol for t, pol in gs if "np_version" in src(t)) and len(gs) >= 2
+    ctx.check(neg, fp, fp.node, "status = -1", "a non-NP2 input is refused with status -1 and nothing is processed",
+              "the non-NP2 path does not report -1", key="status--1")
+    # prepare: creation guarded
+    for q in (CLS + "._prepare_files_NP24", CLS + "._prepare_files_NP21"):
+        fi = repo.fn(q)
+        cfg = CFG(fi.node)
+        creators = [c for c in find(fi.node, ast.Call, nested=False) if call_name(c) == "mkdir"
+                    or (call_name(c) == "open" and len(c.args) >= 2 and isinstance(c.args[1], ast.Constant) and "w" in str(c.args[1].value))]
+        if not creators:
+            raise AnchorMissing(f"{q}: no file creation found")
+        for c in creators:
+            gs = cfg.guards(cfg.node_for(c))
+            ok = any(pol and "exists" in src(t) and "overwrite" in src(t) and isinstance(t, ast.BoolOp) and isinstance(t.op, ast.Or) for t, pol in gs)
+            ctx.check(ok, fi, c, c, "output is created only when absent or overwrite is requested",
+                      f"`{src(c)[:60]}` can truncate existing output without overwrite=True", key="create:" + norm(c)[:60])
+        # already_exists: False initially, True on the other branch
+        stores = [n for n in walk_function(fi.node) if isinstance(n, ast.Assign) and loc_name(n.targets[0]) == "self.already_exists"]
+        tr = [n for n in stores if isinstance(n.value, ast.Constant) and n.value.value is True]
+        okb = False
+        for n in tr:
+            gs = cfg.guards(cfg.node_for(n))
+            okb = any((not pol) and "exists" in src(t) and "overwrite" in src(t) for t, pol in gs)
+        ctx.check(okb, fi, tr[0] if tr else fi.node, "self.already_exists = True", "already_exists is raised exactly when output exists and overwrite is off",
+                  "already_exists is not set on the `exists and not overwrite` branch", key="already-exists")
+
+
 def d5_marker_key(ctx, rule_id="D5"):
-    ctx.rule(rule_id, "stub")
+    ctx.rule(rule_id, "split marker key: writer f'{np_version}_shank' == reader key == literal 'NP2.4_shank' read by spikeglx")
+    repo = ctx.repo
+    sites = []
+    for q in (CLS + "._writemetadata_ap", CLS + "._writemetadata_lf", CLS + ".check_metadata",
+              "neuropixel.NP2Reconstructor._prepare_files", "neuropixel.NP2Reconstructor.write_metadata"):
+        fi = repo.fn(q)
+        js = [j for j in find(fi.node, ast.JoinedStr) if "_shank" in (string_value(j) or "")]
+        if not js:
+            ctx.violation(fi, fi.node, "f'{np_version}_shank'", "the split marker key is not used here any more", key="marker:" + q)
+            continue
+        for j in js:
+            s = string_value(j, {"self.np_version": "NP2.4"})
+            sites.append((fi, j, s))
+    fs = repo.fn("spikeglx._split_geometry_into_shanks")
+    lits = sorted({c.value for c in find(fs.node, ast.Constant) if isinstance(c.value, str) and c.value.endswith("_shank")})
+    if not lits:
+        raise AnchorMissing("spikeglx._split_geometry_into_shanks: marker literal not found")
+    for fi, j, s in sites:
+        ctx.check([s] == lits, fi, j, f"{src(j)} -> {s!r} vs spikeglx {lits}", "marker key agrees with the one spikeglx reads",
+                  f"marker key {s!r} (at NP2.4) differs from the literal(s) {lits} read by spikeglx._split_geometry_into_shanks", key="marker:" + fi.qualname)
+
+
 def run(ctx):
-    pass
+    d1_deletion_guarded(ctx)
+    d2_typestate(ctx)
+    d3_unlink_tolerant(ctx)
+    d4_skip_paths(ctx)
+    d5_marker_key(ctx)
